@@ -3,6 +3,7 @@
 // on), prints one canonical result line per case.  See DESIGN.md App. B and
 // tools/caselang.md for the case language.
 mod bytespec;
+mod kernel;
 use bytespec::{hex, parse as bytes};
 
 use blake3::hazmat::{self, HasherExt};
@@ -172,6 +173,13 @@ impl Machine {
                 let script: Vec<u8> = f[3].bytes().map(|c| c - b'0').collect();
                 let n = self.hashers[idx(f[1])].verif_update_scripted(&bytes(f[2]), &script);
                 let _ = n;
+            }
+            "usc" => {
+                // like `us`, but prints the number of joins the update performed (C08: validates the
+                // generator's count of internal nodes, so that "all 3^k scripts" really is all of them)
+                let script: Vec<u8> = f[3].bytes().map(|c| c - b'0').collect();
+                let n = self.hashers[idx(f[1])].verif_update_scripted(&bytes(f[2]), &script);
+                self.out.push(format!("{n}"));
             }
             "ur" => {
                 let script: Vec<String> = if f.len() > 3 && !f[3].is_empty() {
@@ -584,6 +592,8 @@ fn run_case(line: &str) -> String {
             }
         }
         "lsl" | "msl" => helper_case(&toks, &mut out),
+        "kcip" | "kxof" | "khm" | "khmg" | "kxm" => kernel::kernel_case(&toks, &mut out),
+        "THR" => out.push(kernel::thr_case(&toks, run_case)),
         "ref" => {
             let r = catch_unwind(AssertUnwindSafe(|| ref_case(&toks, &mut out)));
             if r.is_err() {
